@@ -178,6 +178,7 @@ class Interp:
         self.log: list[LogRecord] = []
         self.stack: list[str] = []
         self.hooks = {}             # name -> python callable overriding a resolved external
+        self.method_hooks = {}      # qualified repo function -> python callable(interp, args, kwargs) replacing its body
         self.current_node = None
         self.handling: list[PyRaise] = []
         self.taint_mode = "abort"       # "abort": a position/length-dependent branch stops the analysis;
@@ -360,6 +361,8 @@ class Interp:
 
     # ================================================================ calls
     def call_fn(self, fn: FuncInfo, args, kwargs, closure_env=None):
+        if fn.qual in self.method_hooks:
+            return self.method_hooks[fn.qual](self, list(args), dict(kwargs))
         self.depth += 1
         if self.depth > self.max_depth:
             self.depth -= 1
@@ -481,7 +484,7 @@ class Interp:
             raise PyRaise("AttributeError", node, f"number has no attribute '{name}'")
         if isinstance(v, ExtModule):
             return self.ext_attr(v, name, node)
-        if isinstance(v, (list, dict, str, tuple, set)):
+        if isinstance(v, (list, dict, str, tuple, set, bytes, frozenset)):
             if isinstance(v, list) and name == "index":
                 def idx(x, _v=v):
                     for i, y in enumerate(_v):
@@ -608,8 +611,13 @@ class Interp:
         if m.name == "sys":
             if name == "exc_info":
                 return lambda: (None, None, None)
-        if m.name in ("scipy", "scipy.stats", "scipy.linalg", "pandas", "itertools", "os", "pickle", "re", "unicodedata",
-                      "matplotlib", "plotly", "scipy.stats.norm"):
+        if m.name in ("re", "unicodedata"):        # pure standard-library text functions: evaluated as they are
+            import re as _re, unicodedata as _ud
+            return getattr({"re": _re, "unicodedata": _ud}[m.name], name)
+        if m.name == "itertools" and name == "product":
+            import itertools as _it
+            return lambda *its, repeat=1: list(_it.product(*[self.iterate(i) for i in its], repeat=repeat))
+        if m.name.split(".")[0] in ("scipy", "pandas", "itertools", "os", "pickle", "matplotlib", "plotly"):
             return ExtModule(full)
         if m.name == "copy":
             if name == "copy":
@@ -634,6 +642,20 @@ class Interp:
             "clip": lambda a, lo, hi: el("clip", a, lo, hi), "isfinite": lambda a: el("isfinite", a),
             "float64": lambda a: a, "errstate": None,
         }
+        if name in ("sqrt", "ceil", "floor", "log", "exp", "abs", "round", "rint"):
+            import math
+            hostf = {"sqrt": math.sqrt, "ceil": math.ceil, "floor": math.floor, "log": math.log, "exp": math.exp, "abs": abs, "round": round, "rint": round}[name]
+            inner = simple.get(name)
+
+            def numeric(a, *rest, **kw):
+                if isinstance(a, (int, float)) and not isinstance(a, bool):
+                    if isinstance(a, TInt):
+                        self.tainted(f"np.{name} of a length-derived integer")
+                    return hostf(float(a)) if name not in ("abs",) else hostf(a)
+                if inner is None:
+                    raise AnalysisAbort(f"np.{name} of {I.tname(a)} is not modelled")
+                return inner(a, *rest, **kw)
+            return numeric
         if name in simple and simple[name] is not None:
             return simple[name]
         if name == "ndarray":
@@ -1064,6 +1086,9 @@ class Interp:
             raise AnalysisAbort(f"assignment target {type(tgt).__name__}")
 
     def set_attr(self, o, name, val, node):
+        if isinstance(o, PyModel):
+            setattr(o, name, val)
+            return
         if isinstance(o, Obj):
             o.f[name] = val
             self.on_attr_store(o, name, val, node)
@@ -1546,7 +1571,8 @@ class Interp:
                 return l * r
             if isinstance(op, ast.Div):
                 if isinstance(l, TInt) or isinstance(r, TInt):
-                    raise AnalysisAbort("true division of a length")
+                    self.tainted("arithmetic (true division) on a length-derived integer")
+                    return int(l) / int(r) if not isinstance(l, float) and not isinstance(r, float) else float(l) / float(r)
                 return l / r
             if isinstance(op, ast.FloorDiv):
                 return l // r
